@@ -11,9 +11,9 @@ def harness_files(tier, seed):
 META = dict(
     bounds="generic depth-1 interchange values (hlib.gv): leaf | list len<=2 | dict <=2 keys | 2-tuple | [[A],B] | {k:[A]}; "
            "symbolic float at top / in a list / in a dict for the numeric unions",
-    configs="20 overlap-rich unions (int/float/complex in both orders, bool/int, Literal/str, list/tuple/tuple-layout dataclass, "
+    configs="27 overlap-rich unions (members left of None that accept None, int/float/complex in both orders, bool/int, Literal/str, list/tuple/tuple-layout dataclass, "
             "dataclasses sharing field names, dict/struct, enum/str) x spellings (typing-flattened, nested UnionConverter, "
-            "Optional[..], Union[None, ..], inside List)",
+            "Optional[..], Union[None, ..], inside List) + serialisation / alias-order / generic-subscription histories + unions mentioning a type variable after substitution (4 instantiations)",
     stubs=[],
     outside=["unions of more than 4 members", "PEP 604 X | Y spelling (types.UnionType has no converter: TypeError at build time)"],
     assumptions=["oracle: each member's own converter, built separately by make_converter"],
